@@ -161,7 +161,9 @@ def values(fl, rnd, key, fresh):
         MANAGERS.append(fm)
         if rnd.random() < 0.4:
             return fm  # a manager with exactly the registrations of the default one
-        if rnd.random() < 0.4:
+        if rnd.random() < 0.4 and vars(fl.settings).get("_factory_manager") is not None:
+            # (only once the default manager exists: asking for it would make it, and contexts entered before anybody has asked
+            # for it are a case of their own)
             # a manager made by copying the one in force (the default one, or the one of an enclosing context) and registering
             # something more in the copy: the copy is the copy's
             import copy as _copy
